@@ -278,3 +278,136 @@ func (w *world) fillPool() {
 	w.filler.Fill(unexported(pv, "txReceivingInfo"), 0)
 	w.filler.Fill(unexported(pv, "proposalsUsedAmount"), 0)
 }
+
+// collectByType gathers, from the live graph, map keys and pointer targets by
+// type: candidate arguments for accessor calls.
+func collectByType(root reflect.Value, pol *Policy) map[reflect.Type][]reflect.Value {
+	out := map[reflect.Type][]reflect.Value{}
+	seen := map[[2]uintptr]bool{}
+	var rec func(v reflect.Value, d int)
+	rec = func(v reflect.Value, d int) {
+		if !v.IsValid() || d > 40 || pol.skipType(v.Type()) {
+			return
+		}
+		switch v.Kind() {
+		case reflect.Ptr:
+			if v.IsNil() || pol.skipType(v.Type().Elem()) {
+				return
+			}
+			k := [2]uintptr{v.Pointer(), typeID(v.Type())}
+			if seen[k] {
+				return
+			}
+			seen[k] = true
+			rec(v.Elem(), d+1)
+		case reflect.Map:
+			if v.IsNil() {
+				return
+			}
+			rv := readable(v)
+			keys := rv.MapKeys()
+			sortValues(keys)
+			for _, k := range keys {
+				if len(out[k.Type()]) < 6 {
+					out[k.Type()] = append(out[k.Type()], k)
+				}
+				rec(rv.MapIndex(k), d+1)
+			}
+		case reflect.Slice, reflect.Array:
+			if v.Kind() == reflect.Slice && v.Type().Elem().Kind() == reflect.Uint8 {
+				return
+			}
+			for i := 0; i < v.Len(); i++ {
+				rec(v.Index(i), d+1)
+			}
+		case reflect.Struct:
+			for i := 0; i < v.NumField(); i++ {
+				if pol.skipField(v.Type(), v.Type().Field(i)) {
+					continue
+				}
+				rec(v.Field(i), d+1)
+			}
+		case reflect.Interface:
+			if !v.IsNil() {
+				rec(v.Elem(), d+1)
+			}
+		}
+	}
+	rec(root, 0)
+	return out
+}
+
+// checkDeepReturn calls an exported accessor whose result the translator
+// classified as a copy two or more private layers deep, on a populated live
+// object, and looks for anything the result still shares with the live state.
+func (w *world) checkDeepReturn(d DeepReturn) (res snapResult, called int) {
+	var obj, live reflect.Value
+	switch d.Group {
+	case "State":
+		obj, live = reflect.ValueOf(w.arbiters.State), w.liveDPoS()
+	case "Committee":
+		obj, live = reflect.ValueOf(w.committee), w.liveCR()
+	case "TxPool":
+		w.fillPool()
+		obj, live = reflect.ValueOf(w.pool), w.livePool()
+	}
+	res = snapResult{Kind: d.Group + "." + d.Method}
+	m := obj.MethodByName(d.Method)
+	if !m.IsValid() {
+		res.Nil = true
+		return
+	}
+	cands := collectByType(live, w.pol)
+	mt := m.Type()
+	merged := map[string]bool{}
+	for try := 0; try < 6; try++ {
+		args := make([]reflect.Value, mt.NumIn())
+		for i := range args {
+			at := mt.In(i)
+			a := reflect.New(at).Elem()
+			w.filler.Fill(a, 0)
+			// prefer values present in the state (existing keys) on the first tries
+			base := at
+			if at.Kind() == reflect.Ptr {
+				base = at.Elem()
+			}
+			if cs := cands[base]; len(cs) > try {
+				if at.Kind() == reflect.Ptr {
+					p := reflect.New(base)
+					p.Elem().Set(cs[try])
+					a = p
+				} else {
+					a = cs[try]
+				}
+			} else if at.Kind() == reflect.Uint8 || at.Kind() == reflect.Uint32 {
+				a.SetUint(uint64(try))
+			}
+			args[i] = a
+		}
+		var outs []reflect.Value
+		if p, _ := lib.Recover(func() { outs = m.Call(args) }); p {
+			continue
+		}
+		called++
+		li := Walk(live, w.pol)
+		for _, o := range outs {
+			if o.Kind() == reflect.Interface && !o.IsNil() && o.Type().Name() == "error" {
+				continue
+			}
+			si := Walk(o, w.pol)
+			res.Idents += len(si)
+			for _, s := range Shared(li, si) {
+				merged[s] = true
+			}
+		}
+		if mt.NumIn() == 0 {
+			break
+		}
+	}
+	for s := range merged {
+		res.Shared = append(res.Shared, s)
+	}
+	sort.Strings(res.Shared)
+	res.SharedSites = sitesOf(res.Shared)
+	return
+}
